@@ -5,11 +5,483 @@ K end to end: generated gzip FASTQ libraries go through the real DemultiplexingS
 parametric in the strategies; the abstraction (tools/impl_c01.py) gives it, per pair and strategy, the outcome
 class of the real strategy.demultiplex (Accept with its serialised records / NonMultiplexable reason / other
 exception) and the reject header of the loader's base demultiplexer.  The model then predicts the BYTES of every
-output file, the returned counters and the counters in the log.  search() evaluates the specification the
-theorems state (partition / mate sync / counters / reject content) directly on the real output files (Python
-transcription of Props/C01.v; no model needed)."""
-import json, os, re, glob
+output file, the returned counters and the counters in the log.
+
+T: LoaderTranslator (below) regenerates the SHAPE of the loader loop (sinks / guards / fall-through of the three arms,
+position of the counters relative to the maxReadPairs test) into coq/Gen/GenLoader.v; the model's step function is defined
+from it and the theorems hold for every well-formed shape (Props/C01.v).
+
+The specification itself (spec_C01 <-> specb_C01, Props/C01.v C01_specb_iff) is evaluated by the extracted binary
+(run_C01 mode 2) on the implementation's real output files: on every case of every run, and in search().  The Python
+transcription spec_violations() is kept as a cross-check that has to agree with specb on every case (and is the
+fall-back when the extracted binary cannot be built)."""
+import ast, hashlib, json, os, re, glob
 import fw
+from py2coq import Untranslatable, find_function
+
+# ====================================================================== T: the shape of the loader loop
+LOADER_REL = 'singlecellmultiomics/modularDemultiplexer/demultiplexingStrategyLoader.py'
+GEN_LOADER = os.path.join(fw.COQ, 'Gen', 'GenLoader.v')
+RAW_REJECT = ("['\\n'.join(({v}.header + f';RR:{{{reason}}};Rr:{{{why}}}', {v}.sequence, {v}.plus, {v}.qual)) + '\\n' "
+              "for {v} in {reads}]")
+RAW_GENERIC = ("['\\n'.join(({v}.header + f';RR:{{type({e}).__name__}}', {v}.sequence, {v}.plus, {v}.qual)) + '\\n' "
+               "for {v} in {reads}]")
+
+
+class LoaderTranslator:
+    """Fail-closed reader of DemultiplexingStrategyLoader.demultiplex: recognises the statements the C01 proofs hinge on
+    BY ROLE (which object a write() is called on and with what, which counter an increment touches, what a test compares)
+    and emits them as a value of Lib/C01Shape.shape.  Every statement of the function that touches an output handle, a
+    counter or the control flow of the two loops has to be one of the recognised ones; anything else is refused
+    (Untranslatable) - the check then falls back to the pinned translation and the correspondence check (fw)."""
+    HANDLES = {'targetFile': 'STarget', 'rejectHandle': 'SReject'}
+
+    def __init__(self, repo):
+        self.repo = repo
+        self.path = os.path.join(repo, LOADER_REL)
+        self.src = open(self.path).read()
+        self.fn = find_function(ast.parse(self.src), 'DemultiplexingStrategyLoader.demultiplex')
+        if not isinstance(self.fn, ast.FunctionDef):
+            raise Untranslatable('DemultiplexingStrategyLoader.demultiplex is not a function')
+        self.accounted = []     # ast nodes whose role was recognised
+        self.where = {}         # role -> line (evidence)
+
+    def fail(self, node, why):
+        raise Untranslatable('%s line %s: %s' % (LOADER_REL, getattr(node, 'lineno', '?'), why))
+
+    # ---- small matchers
+    @staticmethod
+    def same(node, src):
+        # (compared through ast.unparse: identical up to layout, parentheses and the Load/Store context)
+        return ast.unparse(node) == ast.unparse(ast.parse(src, mode='eval').body)
+
+    @staticmethod
+    def is_name(n, name=None):
+        return isinstance(n, ast.Name) and (name is None or n.id == name)
+
+    def is_not_none(self, test, name):
+        return self.same(test, '%s is not None' % name)
+
+    @staticmethod
+    def strip(stmts):
+        """statements without `pass` and bare string expressions"""
+        return [s for s in stmts if not isinstance(s, ast.Pass) and
+                not (isinstance(s, ast.Expr) and isinstance(s.value, ast.Constant) and isinstance(s.value.value, str))]
+
+    def names_in(self, node):
+        return {n.id for n in ast.walk(node) if isinstance(n, ast.Name)}
+
+    # ---- the function
+    def run(self):
+        fn = self.fn
+        a = fn.args
+        if a.vararg or a.kwarg or a.posonlyargs or a.kwonlyargs:
+            self.fail(fn, 'argument form outside the subset')
+        params = [x.arg for x in a.args]
+        for need in ('fastqfiles', 'maxReadPairs', 'strategies', 'targetFile', 'rejectHandle'):
+            if need not in params:
+                self.fail(fn, 'parameter %s is missing' % need)
+        self.params = params
+        body = self.strip(fn.body)
+        loops = [s for s in body if isinstance(s, ast.For)]
+        if len(loops) != 1:
+            self.fail(fn, '%d top-level for loops (expected the pair loop only)' % len(loops))
+        loop = loops[0]
+        k = body.index(loop)
+        self.pre(body[:k])
+        self.pair_loop(loop)
+        self.post(body[k + 1:])
+        self.escape_check()
+        return self.shape
+
+    def pre(self, stmts):
+        """before the loop: fresh per-call counters, the strategies to use, the base demultiplexer"""
+        self.Y = self.P = self.U = self.B = None
+        tracked = set(self.HANDLES)
+        for s in stmts:
+            if not (isinstance(s, ast.Assign) and len(s.targets) == 1 and self.is_name(s.targets[0])):
+                self.fail(s, 'statement before the pair loop is not a simple assignment')
+            t, v = s.targets[0].id, s.value
+            if t in self.params:
+                self.fail(s, 'a parameter is re-assigned before the pair loop')
+            if self.same(v, 'collections.Counter()') and self.Y is None:
+                self.Y = t; self.accounted.append(s); self.where['yields_init'] = s.lineno
+            elif self.same(v, '0') and self.P is None:
+                self.P = t; self.accounted.append(s); self.where['processed_init'] = s.lineno
+            elif self.same(v, 'strategies if strategies is not None else self.getAutodetectStrategies()'):
+                self.U = t
+            elif isinstance(v, ast.Call) and ast.unparse(v.func).split('.')[-1] == 'IlluminaBaseDemultiplexer':
+                self.B = t
+            elif self.names_in(v) & (tracked | {x for x in (self.Y, self.P) if x}):
+                self.fail(s, 'assignment before the pair loop uses an output handle or a counter')
+        if self.Y is None or self.P is None:
+            self.fail(self.fn, 'the per-call initialisation  <yields> = collections.Counter() / <processed> = 0  was not found')
+        if self.Y in self.params or self.P in self.params:
+            self.fail(self.fn, 'a counter is a parameter of the function')
+
+    def pair_loop(self, loop):
+        self.loop = loop
+        if loop.orelse:
+            self.fail(loop, 'pair loop has an else clause')
+        it, self.pvar = loop.iter, None
+        if isinstance(it, ast.Call) and self.is_name(it.func, 'enumerate'):
+            if len(it.args) != 1 or it.keywords:
+                self.fail(loop, 'enumerate() with a start value')
+            it = it.args[0]
+            tg = loop.target
+            if not (isinstance(tg, ast.Tuple) and len(tg.elts) == 2 and all(self.is_name(e) for e in tg.elts)):
+                self.fail(loop, 'target of the enumerate() loop')
+            self.pvar, self.reads = tg.elts[0].id, tg.elts[1].id
+        else:
+            if not self.is_name(loop.target):
+                self.fail(loop, 'target of the pair loop')
+            self.reads = loop.target.id
+        if not (isinstance(it, ast.Call) and ast.unparse(it.func).split('.')[-1] == 'FastqIterator' and not it.keywords
+                and len(it.args) == 1 and isinstance(it.args[0], ast.Starred) and self.is_name(it.args[0].value, 'fastqfiles')):
+            self.fail(loop, 'the pair loop does not iterate FastqIterator(*fastqfiles)')
+        self.where['pair_loop'] = loop.lineno
+        items = {}
+        for k, s in enumerate(self.strip(loop.body)):
+            kind = self.body_item(s)
+            if kind is None:
+                self.fail(s, 'statement in the body of the pair loop with no recognised role: %s' % ast.unparse(s)[:80])
+            if kind in items:
+                self.fail(s, 'second %s statement in the body of the pair loop' % kind)
+            items[kind] = (k, s)
+        for kind in ('incr', 'strat', 'test'):
+            if kind not in items:
+                self.fail(loop, 'the body of the pair loop has no %s statement' % kind)
+        self.where.update({'processed_incr': items['incr'][1].lineno, 'max_test': items['test'][1].lineno,
+                           'strategy_loop': items['strat'][1].lineno})
+        self.incr_before_test = items['incr'][0] < items['test'][0]
+        self.strat_before_test = items['strat'][0] < items['test'][0]
+        self.strategy_loop(items['strat'][1])
+
+    def body_item(self, s):
+        P = self.P
+        if isinstance(s, ast.Assign) and len(s.targets) == 1 and self.is_name(s.targets[0], P):
+            if self.pvar and (self.same(s.value, '%s + 1' % self.pvar) or self.same(s.value, '1 + %s' % self.pvar)):
+                self.accounted.append(s)
+                return 'incr'
+            if self.same(s.value, '%s + 1' % P) or self.same(s.value, '1 + %s' % P):
+                self.accounted.append(s)
+                return 'incr'
+            return None
+        if isinstance(s, ast.AugAssign) and self.is_name(s.target, P) and isinstance(s.op, ast.Add) and self.same(s.value, '1'):
+            self.accounted.append(s)
+            return 'incr'
+        if isinstance(s, ast.For):
+            return 'strat'
+        if isinstance(s, ast.If):
+            forms = ['maxReadPairs is not None and %s >= maxReadPairs' % P, 'maxReadPairs is not None and maxReadPairs <= %s' % P]
+            if any(self.same(s.test, f) for f in forms) and len(s.body) == 1 and isinstance(s.body[0], ast.Break) and not s.orelse:
+                self.accounted.append(s)
+                return 'test'
+        return None
+
+    # ---- for strategy in useStrategies: try ... except NonMultiplexable ... except Exception ...
+    def is_count(self, s):
+        return (isinstance(s, ast.AugAssign) and isinstance(s.op, ast.Add) and self.same(s.value, '1')
+                and self.same(s.target, '%s[%s.shortName]' % (self.Y, self.strat)))
+
+    def strategy_loop(self, loop):
+        if loop.orelse or not self.is_name(loop.target):
+            self.fail(loop, 'form of the strategy loop')
+        self.strat = loop.target.id
+        if not (self.is_name(loop.iter, 'strategies') or (self.U and self.is_name(loop.iter, self.U))):
+            self.fail(loop, 'the strategy loop does not iterate the selected strategies')
+        body = self.strip(loop.body)
+        if not body or not isinstance(body[0], ast.Try):
+            self.fail(loop, 'the strategy loop does not start with the try statement')
+        tr, rest = body[0], body[1:]
+        counts = []          # (position, node)
+        if len(rest) > 1 or (rest and not self.is_count(rest[0])):
+            self.fail(rest[0], 'statement after the try statement that is not the yield increment')
+        if rest:
+            counts.append(('after', rest[0]))
+        if tr.finalbody or len(tr.handlers) != 2:
+            self.fail(tr, 'try statement: expected exactly the handlers NonMultiplexable and Exception, no finally')
+        h1, h2 = tr.handlers
+        if not (self.is_name(h1.type, 'NonMultiplexable') and h1.name and self.is_name(h2.type, 'Exception')):
+            self.fail(tr, 'handlers are not  except NonMultiplexable as <reason> / except Exception [as <e>]')
+        els = self.strip(tr.orelse)
+        if els:
+            if len(els) != 1 or not self.is_count(els[0]):
+                self.fail(els[0], 'else clause of the try statement holds something other than the yield increment')
+            counts.append(('else', els[0]))
+        # try body
+        tb = self.strip(tr.body)
+        if not tb:
+            self.fail(tr, 'empty try body')
+        A = tb[0]
+        if not (isinstance(A, ast.Assign) and len(A.targets) == 1 and self.is_name(A.targets[0]) and isinstance(A.value, ast.Call)
+                and self.same(A.value.func, '%s.demultiplex' % self.strat) and A.value.args and self.is_name(A.value.args[0], self.reads)):
+            self.fail(A, 'the try body does not start with  <records> = strategy.demultiplex(<reads>, ...)')
+        self.R = A.targets[0].id
+        self.where['strategy_call'] = A.lineno
+        wpos, sink, guarded = None, 'SNone', False
+        for k, s in enumerate(tb[1:]):
+            if self.is_count(s):
+                counts.append(('try', s, k))
+                continue
+            w = self.write_stmt(s, lambda arg: self.is_name(arg, self.R))
+            if w is None or wpos is not None:
+                self.fail(s, 'statement in the try body with no recognised role: %s' % ast.unparse(s)[:80])
+            wpos, (sink, guarded) = k, w
+            self.where['accept_write'] = s.lineno
+        if len(counts) > 1:
+            self.fail(counts[1][1], 'more than one yield increment')
+        early = False
+        cpos = counts[0][0] if counts else None
+        if cpos == 'try' and wpos is not None and counts[0][2] < wpos:
+            early = True
+        if counts:
+            self.accounted.append(counts[0][1])
+            self.where['yield_incr'] = counts[0][1].lineno
+        self.where['yield_incr_position'] = {None: 'absent', 'after': 'after the try statement', 'else': 'else clause of the try',
+                                             'try': 'in the try body, %s the write' % ('BEFORE' if early else 'after')}[cpos]
+        accept = (sink, guarded, bool(counts))
+        rsink, rguard, rcont = self.handler(h1, 'reject')
+        gsink, gguard, gcont = self.handler(h2, 'generic')
+        self.shape = {'accept': accept,
+                      'reject': (rsink, rguard, cpos == 'after' and not rcont),
+                      'generic': (gsink, gguard, cpos == 'after' and not gcont),
+                      'count_early': early, 'incr_before_test': self.incr_before_test,
+                      'strat_before_test': self.strat_before_test}
+
+    def write_stmt(self, s, arg_ok):
+        """<H>.write(<arg>)  or  if <H> is not None: <H>.write(<arg>)   -> (sink, guarded) ; role: arg_ok(arg)"""
+        guarded = None
+        if isinstance(s, ast.If):
+            inner = self.strip(s.body)
+            if s.orelse or len(inner) != 1:
+                return None
+            for h in self.HANDLES:
+                if self.is_not_none(s.test, h):
+                    guarded = h
+            if guarded is None:
+                return None
+            call = inner[0]
+        else:
+            call = s
+        if not (isinstance(call, ast.Expr) and isinstance(call.value, ast.Call)):
+            return None
+        c = call.value
+        if not (isinstance(c.func, ast.Attribute) and c.func.attr == 'write' and isinstance(c.func.value, ast.Name)
+                and c.func.value.id in self.HANDLES and len(c.args) == 1 and not c.keywords and arg_ok(c.args[0])):
+            return None
+        h = c.func.value.id
+        if guarded is not None and guarded != h:
+            return None      # guarded by the OTHER handle: not the handle-is-None guard of this write
+        self.accounted.append(s)
+        return self.HANDLES[h], guarded is not None
+
+    def reporting(self, s):
+        """statements of an except arm that touch no sink, counter or control flow: console / log messages"""
+        bad = set(self.HANDLES) | {self.Y, self.P}
+        if self.names_in(s) & bad:
+            return False
+        if any(isinstance(n, (ast.Continue, ast.Break, ast.Return, ast.Raise, ast.Yield, ast.YieldFrom, ast.Lambda, ast.FunctionDef,
+                              ast.Await, ast.NamedExpr)) for n in ast.walk(s)):
+            return False
+        if isinstance(s, (ast.Import, ast.ImportFrom)):
+            return True
+        if isinstance(s, ast.Expr) and isinstance(s.value, ast.Call) and self.is_name(s.value.func, 'print'):
+            return True
+        fixed = {self.reads, self.strat, self.R, self.pvar, self.U, self.B} | set(self.params)
+        if isinstance(s, ast.Assign) and len(s.targets) == 1 and self.is_name(s.targets[0]) and s.targets[0].id not in fixed:
+            return True
+        if isinstance(s, ast.For) and self.is_name(s.target) and s.target.id not in fixed and self.is_name(s.iter, self.reads) and not s.orelse:
+            return all(self.reporting(x) for x in s.body)
+        if isinstance(s, ast.If) and self.is_not_none(s.test, 'log_handle') and not s.orelse:
+            return all(isinstance(x, ast.Expr) and isinstance(x.value, ast.Call) and self.same(x.value.func, 'log_handle.write')
+                       for x in s.body)
+        return False
+
+    def handler(self, h, kind):
+        """-> (sink, guarded, ends in continue)"""
+        body = self.strip(h.body)
+        cont = bool(body) and isinstance(body[-1], ast.Continue)
+        if cont:
+            self.accounted.append(body[-1])
+            body = body[:-1]
+        if kind == 'generic' and body and isinstance(body[0], ast.If) and self.is_name(body[0].test, 'probe') and 'probe' in self.params \
+                and len(body[0].body) == 1 and isinstance(body[0].body[0], ast.Continue) and not body[0].orelse:
+            self.accounted.append(body[0])        # probing mode (auto-detection): outside the model (probe is falsy)
+            self.where['generic_probe_skip'] = body[0].lineno
+            body = body[1:]
+        sink, guarded, seen = 'SNone', False, False
+        for s in body:
+            if self.reporting(s):
+                continue
+            w = self.reject_block(s, h) if kind == 'reject' else self.write_stmt(
+                s, lambda arg: h.name is not None and self.raw_ok(arg, RAW_GENERIC, e=h.name))
+            if w is None or seen:
+                self.fail(s, 'statement in the %s arm with no recognised role: %s' % (kind, ast.unparse(s)[:80]))
+            sink, guarded = w
+            seen = True
+            self.where[kind + '_write'] = s.lineno
+        self.where[kind + '_ends_in_continue'] = cont
+        return sink, guarded, cont
+
+    def raw_ok(self, arg, template, **names):
+        if not (isinstance(arg, ast.ListComp) and len(arg.generators) == 1 and self.is_name(arg.generators[0].target)):
+            return False
+        return self.same(arg, template.format(v=arg.generators[0].target.id, reads=self.reads, **names))
+
+    def reject_block(self, s, h):
+        """[if H is not None:] try: tw = baseDemux.demultiplex(reads, ..., reason=reason); H.write(tw)
+                               except NonMultiplexable as e: H.write(<raw records with ;RR:reason;Rr:e>)"""
+        guarded = None
+        if isinstance(s, ast.If):
+            inner = self.strip(s.body)
+            for hd in self.HANDLES:
+                if self.is_not_none(s.test, hd):
+                    guarded = hd
+            if guarded is None or s.orelse or len(inner) != 1:
+                return None
+            t = inner[0]
+        else:
+            t = s
+        if not (isinstance(t, ast.Try) and not t.orelse and not t.finalbody and len(t.handlers) == 1):
+            return None
+        tb = self.strip(t.body)
+        if len(tb) != 2:
+            return None
+        A, W = tb
+        if not (isinstance(A, ast.Assign) and len(A.targets) == 1 and self.is_name(A.targets[0]) and isinstance(A.value, ast.Call)
+                and self.B and self.same(A.value.func, '%s.demultiplex' % self.B) and A.value.args
+                and self.is_name(A.value.args[0], self.reads)
+                and any(k.arg == 'reason' and self.is_name(k.value, h.name) for k in A.value.keywords)):
+            return None
+        tw = A.targets[0].id
+        hh = t.handlers[0]
+        if not (self.is_name(hh.type, 'NonMultiplexable') and hh.name):
+            return None
+        hb = self.strip(hh.body)
+        if len(hb) != 1:
+            return None
+        keep = list(self.accounted)
+        w1 = self.write_stmt(W, lambda arg: self.is_name(arg, tw))
+        w2 = self.write_stmt(hb[0], lambda arg: self.raw_ok(arg, RAW_REJECT, reason=h.name, why=hh.name))
+        if w1 is None or w2 is None or w1 != (w1[0], False) or w2 != (w1[0], False):
+            self.accounted = keep
+            return None
+        sink = w1[0]
+        if guarded is not None and self.HANDLES[guarded] != sink:
+            self.accounted = keep
+            return None
+        self.accounted.append(s)
+        return sink, guarded is not None
+
+    def post(self, stmts):
+        """after the loop: log lines, and the two counters are what is returned"""
+        if not stmts or not isinstance(stmts[-1], ast.Return) or not self.same(stmts[-1].value, '(%s, %s)' % (self.P, self.Y)):
+            self.fail(self.fn, 'the function does not end with  return <processed>, <yields>')
+        self.accounted.append(stmts[-1])
+        self.where['return'] = stmts[-1].lineno
+        for s in stmts[:-1]:
+            ok = isinstance(s, ast.If) and self.is_not_none(s.test, 'log_handle') and not s.orelse
+            if ok:
+                for n in ast.walk(s):
+                    if isinstance(n, ast.Name) and n.id in (self.Y, self.P) and not isinstance(n.ctx, ast.Load):
+                        ok = False
+                    if isinstance(n, (ast.Return, ast.Raise, ast.Yield, ast.YieldFrom)):
+                        ok = False
+                    if isinstance(n, ast.Call) and isinstance(n.func, ast.Attribute) and self.is_name(n.func.value, self.Y) \
+                            and n.func.attr not in ('items', 'most_common', 'keys', 'values', 'get'):
+                        ok = False
+                if self.names_in(s) & set(self.HANDLES):
+                    ok = False
+            if not ok:
+                self.fail(s, 'statement after the pair loop with no recognised role: %s' % ast.unparse(s)[:80])
+            self.accounted.append(s)
+
+    def escape_check(self):
+        """nothing outside the recognised statements may touch a handle, a counter, a loop variable or the control flow"""
+        inside = set()
+        for a in self.accounted:
+            for n in ast.walk(a):
+                inside.add(id(n))
+        role_vars = {x for x in (self.reads, self.strat, self.pvar, self.R, self.U, self.B) if x}
+        for n in ast.walk(self.fn):
+            if id(n) in inside:
+                continue
+            if isinstance(n, ast.Name):
+                if n.id in self.HANDLES:
+                    self.fail(n, 'output handle %s is used outside the recognised write statements' % n.id)
+                if n.id in (self.Y, self.P):
+                    self.fail(n, 'counter %s is used outside the recognised statements' % n.id)
+            if isinstance(n, (ast.Continue, ast.Break, ast.Return, ast.Raise, ast.Yield, ast.YieldFrom, ast.Global, ast.Nonlocal)):
+                self.fail(n, '%s outside the recognised statements' % type(n).__name__)
+            if isinstance(n, (ast.While, ast.With, ast.FunctionDef, ast.ClassDef, ast.Lambda, ast.Delete)) and n is not self.fn:
+                self.fail(n, '%s statement inside demultiplex' % type(n).__name__)
+        # inside the pair loop its variables are bound exactly once (loop targets, the strategy call)
+        stores = {}
+        for n in ast.walk(self.loop):
+            if isinstance(n, ast.Name) and isinstance(n.ctx, ast.Store) and n.id in role_vars:
+                stores[n.id] = stores.get(n.id, 0) + 1
+        for v, c in stores.items():
+            if c != 1:
+                self.fail(self.fn, 'variable %s is assigned %d times' % (v, c))
+
+    # ---- output
+    def coq(self):
+        seg = '\n'.join(self.src.splitlines()[self.fn.lineno - 1:self.fn.end_lineno])
+        self.sha = hashlib.sha256(seg.encode()).hexdigest()
+        b = lambda x: 'true' if x else 'false'
+        arm = lambda t: '(mkArm %s %s %s)' % (t[0], b(t[1]), b(t[2]))
+        sh = self.shape
+        w = self.where
+        lines = [
+            '(* GENERATED by tools/c01.py (LoaderTranslator) from the working tree of the repository on every run. Do not edit.',
+            '   source: %s lines %d-%d (DemultiplexingStrategyLoader.demultiplex) sha256 %s' % (LOADER_REL, self.fn.lineno, self.fn.end_lineno, self.sha),
+            '   pair loop line %s: increment of processedReadPairs line %s, strategy loop line %s, maxReadPairs test line %s'
+            % (w.get('pair_loop'), w.get('processed_incr'), w.get('strategy_loop'), w.get('max_test')),
+            '   accept arm : write line %s; yield increment line %s (%s)' % (w.get('accept_write'), w.get('yield_incr'), w.get('yield_incr_position')),
+            '   reject arm : write block line %s; ends in continue: %s' % (w.get('reject_write'), w.get('reject_ends_in_continue')),
+            '   generic arm: write line %s; ends in continue: %s; leading `if probe: continue` line %s (probing mode, outside the model) *)'
+            % (w.get('generic_write'), w.get('generic_ends_in_continue'), w.get('generic_probe_skip')),
+            'From SCMO Require Import Lib.C01Shape.',
+            '',
+            'Definition loader_shape : shape :=',
+            '  mkShape %s   (* accept : sink, guarded by `is not None`, reaches the yield increment *)' % arm(sh['accept']),
+            '          %s   (* reject  (except NonMultiplexable) *)' % arm(sh['reject']),
+            '          %s   (* generic (except Exception) *)' % arm(sh['generic']),
+            '          %s   (* yield increment before the write of the accepted records *)' % b(sh['count_early']),
+            '          %s   (* processedReadPairs incremented before the maxReadPairs test *)' % b(sh['incr_before_test']),
+            '          %s.  (* strategy loop before the maxReadPairs test *)' % b(sh['strat_before_test']),
+            '']
+        return '\n'.join(lines)
+
+
+def regen_loader(repo=None, out=None):
+    out = out or GEN_LOADER
+    try:
+        t = LoaderTranslator(repo or fw.REPO)
+        t.run()
+        text = t.coq()
+    except BaseException as e:
+        for ext in ('.v', '.vo', '.vos', '.vok', '.glob'):      # fail closed: no stale generated file stays behind
+            if os.path.exists(out[:-2] + ext):
+                os.remove(out[:-2] + ext)
+        if isinstance(e, (Untranslatable, KeyboardInterrupt)):
+            raise
+        raise Untranslatable('LoaderTranslator could not read %s: %r' % (LOADER_REL, e))
+    os.makedirs(os.path.dirname(out), exist_ok=True)
+    old = open(out).read() if os.path.exists(out) else None
+    if old != text:
+        tmp = out + '.tmp%d' % os.getpid()
+        with open(tmp, 'w') as f:
+            f.write(text)
+        os.replace(tmp, out)
+    sh = t.shape
+    wf = (sh['accept'][0] == 'STarget' and sh['accept'][2] and sh['reject'] == ('SReject', True, False)
+          and sh['generic'] == ('SReject', True, False) and not sh['count_early']
+          and sh['incr_before_test'] == sh['strat_before_test'])
+    return [{'file': 'coq/Gen/GenLoader.v', 'source': LOADER_REL, 'lines': [t.fn.lineno, t.fn.end_lineno], 'sha256': t.sha,
+             'coq': 'loader_shape', 'shape': {k: (list(v) if isinstance(v, tuple) else v) for k, v in sh.items()},
+             'located': t.where, 'well_formed_expected': wf}]
 
 ALPH = 'ACGT'
 Q_MAIN = ''.join(chr(c) for c in range(33, 85))      # '!'..'T'  (phred 0..51): below the header clamp of C04
@@ -55,6 +527,15 @@ class Prop(fw.PropBase):
         'the strategies are PARAMETERS of the model: what a strategy extracts (C02), barcode correction (C03) and the '
         'header codec incl. the phred clamp and the 255 limit (C04) are not re-verified here; their outcome class '
         '(accept / NonMultiplexable / other exception) per pair is measured by calling the real strategy.demultiplex',
+        'T (tools/c01.py LoaderTranslator, hand-written, fail-closed): regenerates only the SHAPE of the loader loop (sink, '
+        'handle guard and fall-through of the three arms of the try statement, increment-before-write, position of the '
+        'processedReadPairs increment and of the strategy loop relative to the maxReadPairs test) and checks by role that the '
+        'accept arm writes the records strategy.demultiplex returned, the reject arm the formatted record with the raw '
+        'fall-back, the generic arm the raw record (header + ;RR:..., sequence, plus, qualities); the CONTENT of those writes '
+        'is the hand-written part of the model, tied by K.  The leading `if probe: continue` of the generic arm is recognised '
+        'and left out: probe is falsy and a target handle is given in every modelled run (auto-detection is outside the property)',
+        'a restructured loop the translator refuses falls back to coq/Gen.pinned/GenLoader.v (the shape of the pinned tree) '
+        'as a hand-held model, tied by K with extra passes (fw, DESIGN 12)',
         'a partial write (first mate written, serialising a later mate raises) is modelled literally, excluded from the '
         'theorems by the hypothesis step_ok, and that hypothesis is CHECKED on the real code: any partial write is a violation',
         'K only, no theorem: the command line driver demux.py __main__ (library listing, pairing of R1/R2 chunk files by sorted '
@@ -62,9 +543,13 @@ class Prop(fw.PropBase):
         'concatenated library in sorted-name order; run histories (an earlier run into the same directory / prefix, joint and '
         'per-cell) - the later run must leave exactly its own records in every file it writes',
         'libraries large enough to cross HandleLimiter.prune (stream percell_prune, > 10000 record writes) are not run '
-        'through the model; the specification is evaluated on their real output files directly',
-        'attribution of an output record to its input pair in search() uses a unique 5-digit id the generator puts '
-        'into every header',
+        'through the model of the loader; the specification (specb_C01) is evaluated on their real output files',
+        'specb_C01 is proved equivalent to spec_C01 and the model is proved to satisfy it (C01_specb_iff, '
+        'C01_model_satisfies_spec); what stays trusted when it is evaluated on the implementation: the glue of run_C01 mode 2 '
+        '(Model/C01Spec.v run_spec: cutting an output file into 4-line records; attribution of a record to its input pair by '
+        'the unique 5-digit id the generator puts into every header, and of a demultiplexed record to a strategy by its MX tag), '
+        'the Python side that reads the gzip files back and hands over texts and counters, and the Python-only pre-checks '
+        '(loader crashed although every reject record can be formatted; strategy registration / selection; unexpected output file)',
     ]
     ASSUMPTIONS = [
         'at least one input file; ASCII input; mates of one pair carry the same header apart from the read number',
@@ -73,7 +558,16 @@ class Prop(fw.PropBase):
         'the reject record can be formatted: library name short enough that header + ;RR:reason stays within the '
         'header limit; otherwise the loader aborts with ValueError (loud; reported as stream longlib, finding D4)',
         'selected strategies have distinct short names (the yield counter is keyed by short name)',
+        'a target handle is given and probe is falsy (targetFile=None / probe=True is the auto-detection pass, outside the property)',
+        'processedReadPairs: with a cut-off maxReadPairs <= 0 the statement leaves free whether one pair or none is consumed '
+        '(the specification accepts both; the model follows the regenerated position of the test: one pair on the current tree)',
+        'C01_model_satisfies_spec: reject reasons, exception names and formatted reject headers contain no newline (contracts of '
+        'the strategy / header-builder parameters; input lines are newline-free by construction of the reader)',
     ]
+
+    # ------------------------------------------------------------------ T
+    def regen(self):
+        return regen_loader()
 
     # ------------------------------------------------------------------ generators
     def describe(self):
@@ -358,9 +852,9 @@ class Prop(fw.PropBase):
 
     # ------------------------------------------------------------------ model I/O
     @staticmethod
-    def model_input(c, r, legacy=0):
+    def model_input(c, r):
         cfg = [[c['maxp']] if c.get('maxp') is not None else [], 1 if c.get('rejects') else 0, 1 if c.get('sc') else 0,
-               2 if c.get('pe_handle') else 1, legacy, 1 if c.get('log', True) else 0]
+               2 if c.get('pe_handle') else 1, 1 if c.get('log', True) else 0]
         files = [f['lines'] for f in c['files']]
         strategies, rejhdr = [], []
         if not c.get('reader_only'):
@@ -488,6 +982,10 @@ class Prop(fw.PropBase):
             hist.setdefault('loader', {})
             bump('loader', 'log=%d options=%s' % (c.get('log', True), ','.join(sorted(k for k, x in (c.get('loader_opts') or {}).items() if x is not None or k == 'index_alias')) or 'default'))
             bump('result', 'crash:' + r['result']['crash'] if 'crash' in r['result'] else 'completed')
+            hist.setdefault('max_vs_pairs', {})
+            np_, mp_ = len(r['pairs']), c['maxp']
+            bump('max_vs_pairs', 'none' if mp_ is None else '<=0' if mp_ <= 0 else 'cuts inside (1..n-1)' if mp_ < np_ else
+                 '= n' if mp_ == np_ else '> n')
             classes = set()
             npairs = len(r['pairs'])
             consumed = npairs if c['maxp'] is None else min(npairs, max(1, c['maxp']))
@@ -553,6 +1051,17 @@ class Prop(fw.PropBase):
             if d:
                 dis.append({'case': i, 'what': '; '.join(d)[:1500]})
         self.mout = mout
+        shp = fw.run_model('C01', 4, [[]])[0]
+        self.cov['loader_shape_in_model'] = {'accept': shp[0], 'reject': shp[1], 'generic': shp[2], 'count_early': shp[3],
+                                             'incr_before_test': shp[4], 'strat_before_test': shp[5], 'wf_shape': shp[6],
+                                             'encoding': 'arm = (sink 0 none / 1 target / 2 rejects, guarded, reaches the yield increment)'}
+        gen = [g for g in self.cov.get('generated', []) if g.get('shape')]
+        if gen:
+            sk = {'SNone': 0, 'STarget': 1, 'SReject': 2}
+            want = [[sk[gen[0]['shape'][a][0]], int(gen[0]['shape'][a][1]), int(gen[0]['shape'][a][2])] for a in ('accept', 'reject', 'generic')] + \
+                   [int(gen[0]['shape'][k]) for k in ('count_early', 'incr_before_test', 'strat_before_test')]
+            if want != shp[:6]:
+                raise fw.Broken('model', 'the extracted model was not built from the regenerated loader shape: binary %r, Gen %r' % (shp[:6], want))
         self.cov['traces_validated_against_impl'] = len(usable) + len(rd_idx)
         self.cov['precondition_hit_rate'] = round(sum(1 for i in usable if mpre[i] == 1) / max(1, len(usable)), 4)
         self.cov['disagreements'] = len(dis)
@@ -563,22 +1072,44 @@ class Prop(fw.PropBase):
         small = sorted(usable, key=lambda i: size(fw.to_val(minputs[i])))
         small = [i for i in small if res[i]['pairs']][:70] + small[:10]
         pairs_vm = [(minputs[i], mout[i]) for i in small]
-        ok, nm, log = fw.vm_crosscheck('C01', 0, pairs_vm)
+        ok, nm, log = fw.vm_crosscheck('C01', 0, pairs_vm, require='Model.C01x')
         rsmall = sorted(rd_idx, key=lambda i: sum(len(f['lines']) for f in cases[i]['files']))[-20:]
-        ok2, nm2, log2 = fw.vm_crosscheck('C01', 3, [(self.model_input(cases[i], res[i]), mread[i]) for i in rsmall]) if rsmall else (True, 0, '')
+        ok2, nm2, log2 = fw.vm_crosscheck('C01', 3, [(self.model_input(cases[i], res[i]), mread[i]) for i in rsmall], require='Model.C01x') if rsmall else (True, 0, '')
         self.cov['vm_compute_crosscheck'] = {'cases': len(pairs_vm) + len(rsmall), 'mismatches': max(nm, 0) + max(nm2, 0)}
         if not (ok and ok2):
             raise fw.Broken('extraction', 'vm_compute and extracted model disagree: ' + (log if not ok else log2)[-800:])
-        # ---- libraries too large for the model: the specification itself, on the real files
+        # ---- the specification itself (specb_C01, extracted binary, mode 2) on the real output files of EVERY case,
+        #      cross-checked against the Python transcription
         big = [i for i in lib_idx if 'outcomes' not in res[i]]
         self.cov['spec_only_libraries'] = [{'stream': cases[i]['stream'], 'pairs': len(res[i]['pairs']), 'result': res[i]['result'],
                                             'output_files': len(res[i]['out_files']),
                                             'records_written': sum(v.count('\n') // 4 for v in res[i]['out_files'].values())} for i in big]
-        for i in big:
-            sv = self.spec_violations(cases[i], res[i])
+        viol, disagree, souts = self.evaluate_spec(cases, res)
+        self.viol = viol
+        full = [i for i in lib_idx if 'crash' not in res[i]['result']]
+        self.cov['specification_on_impl_outputs'] = {
+            'evaluated_by': self.spec_by, 'cases': len(cases), 'libraries_all_clauses': len(full),
+            'records_checked': sum(v.count('\n') // 4 for i in full for v in res[i]['out_files'].values()),
+            'violations': sum(1 for v in viol if v), 'transcription_disagreements': len(disagree)}
+        if souts:
+            ssmall = sorted(full, key=lambda i: size(fw.to_val(self.spec_input(cases[i], res[i]))))
+            ssmall = [i for i in ssmall if res[i]['pairs'] and res[i]['out_files']][:16] + ssmall[:4]
+            ok3, nm3, log3 = fw.vm_crosscheck('C01', 2, [(self.spec_input(cases[i], res[i]), souts[i]) for i in ssmall], require='Model.C01x')
+            self.cov['vm_compute_crosscheck']['cases'] += len(ssmall)
+            self.cov['vm_compute_crosscheck']['mismatches'] += max(nm3, 0)
+            self.cov['vm_compute_crosscheck']['of_which_specb'] = len(ssmall)
+            if not ok3:
+                raise fw.Broken('extraction', 'vm_compute and extracted specb_C01 disagree: ' + log3[-800:])
+        if disagree:
+            i, pk, ck = disagree[0]
+            raise fw.Broken('correspondence', 'specb_C01 (extracted) and its Python transcription disagree on %d cases; first: case %d (%s): '
+                            'specb violates %r, transcription %r' % (len(disagree), i, cases[i]['stream'], sorted(ck), sorted(pk)))
+        for i, sv in enumerate(viol):
             if sv:
-                raise fw.Broken('correspondence', 'specification violated on the real output files of a %s library (%d pairs, one file per '
-                                'cell, -fh %s): %s' % (cases[i]['stream'], len(res[i]['pairs']), cases[i].get('max_handles'), sv[0][1]))
+                c = cases[i]
+                raise fw.Broken('correspondence', 'specification (specb_C01) violated on the real output of case %d (%s, %d records read, use=%r, '
+                                'rejects=%r, percell=%r, max=%r): %s' % (i, c['stream'], len(res[i]['pairs']), c.get('use'), c.get('rejects'),
+                                                                          c.get('sc'), c.get('maxp'), sv[0][1]))
         # ---- hypothesis 'every selected strategy once, short names distinct', checked on the real loader constructions
         for i in lib_idx:
             sel = self.selection_problem(cases[i], res[i])
@@ -647,20 +1178,120 @@ class Prop(fw.PropBase):
             return 'selecting %r by short name gave the strategies %r' % (c['use'], r['order'])
         return None
 
+    # ---- the specification as decided by the extracted binary
+    CLAUSE_KEYS = ['stop_rule', 'reader_record', 'processed', 'order', 'sync', 'beyond_stop', 'partition', 'twice', 'reject', 'reject',
+                   'yields', 'log']
+    KEY_MAP = {'sync_count': 'sync', 'sync_index': 'sync', 'stale': 'beyond_stop', 'reject_content': 'reject', 'reject_reason': 'reject'}
+    PY_ONLY = ('selection', 'crash', 'files')     # about the run as a whole, not about a returned run's outputs
+    spec_by = 'not evaluated'
+
+    MX_RE = re.compile(r'(?:^@|;)MX:([^;\n]*)')
+
+    def attribution(self, c, r):
+        """which strategy wrote a demultiplexed record: with one selected strategy, that one.  With several: by the MX tag, for
+        the tag values only ONE of the selected strategies emits on this library (measured on the real strategy objects: the
+        texts of the accepted records in r['outcomes']).  A composite strategy tags its records with the short name of the
+        component it delegates to, so the MX value alone does not name the strategy.  -> (single, [names only j emits])"""
+        order = r.get('order', [])
+        if len(order) <= 1:
+            return True, [[] for _ in order]
+        emits = []
+        for col in (r.get('outcomes') or [[] for _ in order]):
+            names = set()
+            for o in col:
+                if o[0] == 0:
+                    for rec in o[1]:
+                        m = self.MX_RE.search(rec[2].split('\n', 1)[0]) if rec[0] else None
+                        if m:
+                            names.add(m.group(1))
+            emits.append(names)
+        emits += [set() for _ in range(len(order) - len(emits))]
+        return False, [sorted(e - set().union(*(emits[:j] + emits[j + 1:]))) for j, e in enumerate(emits)]
+
+    def strategy_of(self, header, single, own):
+        if single:
+            return 0
+        m = self.MX_RE.search(header)
+        if not m:
+            return None
+        for j, names in enumerate(own):
+            if m.group(1) in names:
+                return j
+        return None
+
+    def spec_input(self, c, r):
+        """observation of one run of the implementation -> input of run_C01 mode 2 (Model/C01Spec.v run_spec)"""
+        files_in = [f['lines'] for f in c['files']]
+        if c.get('reader_only') or 'crash' in r.get('result', {'crash': 1}):
+            return [[0, 0, 0, []], files_in, r['pairs'], [], 0, [], [], [], 1]
+        order = r.get('order', [])
+        ys, lg = r['result']['yields'], r.get('log')
+        keys = list(order) + sorted((set(ys) | set((lg or {}).get('yields') or {})) - set(order))
+        nh = 2 if c['pe_handle'] else 1
+        sconf = [len(c['use']), 1 if c['rejects'] else 0, min(nh, len(c['files'])), [c['maxp']] if c['maxp'] is not None else []]
+        out = [[k[0], k[1], k[2], txt] for k, txt in sorted(self.impl_files(c, r).items(), key=str) if k[0] != 9]
+        log = [] if lg is None else [(-1 if lg['processed'] is None else lg['processed']), [lg['yields'].get(k, 0) for k in keys]]
+        single, own = self.attribution(c, r)
+        return [sconf, files_in, r['pairs'], out, r['result']['processed'], [ys.get(k, 0) for k in keys], log, own, 1 if single else 0]
+
+    def spec_keys(self, c, r, out):
+        """verdict of specb_C01 (clause booleans) -> violated clause keys, staged like the transcription"""
+        (fmt_ok, attr_ok), cl = out
+        bad = [k for k, b in zip(self.CLAUSE_KEYS, cl) if not b]
+        v = set(k for k in bad if k in ('stop_rule', 'reader_record'))
+        if c.get('reader_only') or 'crash' in r['result']:
+            return v
+        if 'processed' in bad:
+            v.add('processed')
+        if not fmt_ok:
+            return v | {'format'}
+        if any(k[0] == 9 for k in self.impl_files(c, r)):
+            return v
+        if not attr_ok:
+            return v | {'attribution'}
+        return v | set(bad)
+
+    def evaluate_spec(self, cases, res):
+        """the specification on the implementation's outputs: specb_C01 through the extracted binary, the Python transcription
+        as cross-check.  -> (per case [(key, text)], [(case, transcription keys, specb keys)] where they differ, raw outputs)"""
+        py = [self.spec_violations(c, r) if 'error' not in r else [] for c, r in zip(cases, res)]
+        exe = os.path.join(fw.BUILD, 'ext', 'C01', 'model')
+        if not (getattr(self, 'model_ok', False) and os.path.exists(exe)):
+            self.spec_by = 'Python transcription of spec_C01 (the extracted binary is not available)'
+            return py, [], {}
+        idx = [i for i, r in enumerate(res) if 'error' not in r]
+        outs = dict(zip(idx, fw.run_model('C01', 2, [self.spec_input(cases[i], res[i]) for i in idx])))
+        self.spec_by = 'specb_C01 (Model/C01Spec.v) through the extracted binary, run_C01 mode 2'
+        viol, disagree = [], []
+        for i, (c, r) in enumerate(zip(cases, res)):
+            if i not in outs:
+                viol.append([])
+                continue
+            ck = self.spec_keys(c, r, outs[i])
+            texts = {}
+            for k, t in py[i]:
+                texts.setdefault(self.KEY_MAP.get(k, k), t)
+            pk = set(texts) - set(self.PY_ONLY)
+            if pk != ck and not any(k in pk and k in ck for k in ('format', 'attribution')):
+                disagree.append((i, pk, ck))
+            keys = sorted(ck) + [k for k in self.PY_ONLY if k in texts]
+            viol.append([(k, texts.get(k, 'clause %s of specb_C01 is false on the observed run' % k)) for k in keys])
+        return viol, disagree, outs
+
     def spec_violations(self, c, r):
-        """Python transcription of C01_partition / C01_mate_sync / C01_counters / C01_stop_rule evaluated on what the
+        """Python transcription of spec_C01 (Proofs/C01Spec.v), kept as the cross-check of specb_C01: evaluated on what the
         implementation wrote and returned.  -> list of (key, text)"""
         v = []
         n = self.expected_pairs(c)
         if len(r['pairs']) != n:
             v.append(('stop_rule', 'FastqIterator yielded %d records; every mate file has a record with a non-empty header up to '
                       'index %d' % (len(r['pairs']), n)))
+        for k in range(len(r['pairs'])):
+            exp = [[rstrip_ascii(f['lines'][4 * k + j]) if 4 * k + j < len(f['lines']) else '' for j in range(4)] for f in c['files']]
+            if r['pairs'][k] != exp:
+                v.append(('reader_record', 'record %d read as %r, the files hold %r' % (k, r['pairs'][k], exp)))
+                break
         if c.get('reader_only'):
-            for k in range(min(n, len(r['pairs']))):
-                exp = [[rstrip_ascii(f['lines'][4 * k + j]) if 4 * k + j < len(f['lines']) else '' for j in range(4)] for f in c['files']]
-                if r['pairs'][k] != exp:
-                    v.append(('reader_record', 'record %d read as %r, the files hold %r' % (k, r['pairs'][k], exp)))
-                    break
             return v
         sel = self.selection_problem(c, r)
         if sel:
@@ -674,10 +1305,16 @@ class Prop(fw.PropBase):
         nh = 2 if c['pe_handle'] else 1
         nm = len(c['files'])
         width = min(nh, nm)
-        consumed = 0 if n == 0 else (n if c['maxp'] is None else min(n, max(1, c['maxp'])))
-        if r['result']['processed'] != consumed:
-            v.append(('processed', 'processedReadPairs = %r for %d input pairs, maxReadPairs=%r (expected %d)'
-                      % (r['result']['processed'], n, c['maxp'], consumed)))
+        n = len(r['pairs'])
+        # processedReadPairs: all pairs, or fewer at a maxReadPairs cut-off that was reached; never beyond max(1, cut-off).
+        # (whether a cut-off <= 0 consumes one pair or none is left free: the statement does not say)
+        consumed = r['result']['processed']
+        mp = c['maxp']
+        if not (isinstance(consumed, int) and 0 <= consumed <= n and (consumed == n or (mp is not None and mp <= consumed))
+                and (mp is None or consumed <= max(1, mp))):
+            v.append(('processed', 'processedReadPairs = %r for %d input pairs, maxReadPairs=%r' % (consumed, n, mp)))
+            if not isinstance(consumed, int):
+                return v
         files = {}
         for key, txt in self.impl_files(c, r).items():
             recs = self.parse_records(txt)
@@ -713,11 +1350,11 @@ class Prop(fw.PropBase):
             per_sink[t].append((cell, f0, ids0))
         # partition: every consumed pair exactly once per strategy, unconsumed pairs nowhere
         tcount, rcount, tmx = {}, {}, {}
+        single, own = self.attribution(c, r)
         for cell, f0, ids0 in per_sink[1]:
             for rec, u in zip(f0, ids0):
                 tcount[u] = tcount.get(u, 0) + 1
-                mx = re.search(r'(?:^@|;)MX:([^;]*)', rec[0])
-                tmx.setdefault(u, []).append(mx.group(1) if mx else None)
+                tmx.setdefault(u, []).append(self.strategy_of(rec[0], single, own))
         for cell, f0, ids0 in per_sink[0]:
             for u in ids0:
                 rcount[u] = rcount.get(u, 0) + 1
@@ -736,7 +1373,7 @@ class Prop(fw.PropBase):
                 v.append(('partition', 'pair %d without a rejects handle: %d demultiplexed, %d rejected records, %d strategies' % (u, a, b, ns)))
             mxs = [m for m in tmx.get(u, []) if m is not None]
             if len(mxs) != len(set(mxs)):
-                v.append(('twice', 'pair %d was demultiplexed twice by the same strategy: %r' % (u, mxs)))
+                v.append(('twice', 'pair %d was demultiplexed twice by the same strategy: strategy indices %r of %r' % (u, mxs, r.get('order'))))
         # rejects carry a reason and the original bases and qualities
         for (t, cell, m), recs in files.items():
             if t != 0:
@@ -764,9 +1401,10 @@ class Prop(fw.PropBase):
                 for m in ms:
                     if m is not None:
                         bymx[m] = bymx.get(m, 0) + 1
-            for name, cnt in bymx.items():
-                if name in c['use'] and ys.get(name, 0) != cnt:
-                    v.append(('yields', 'strategyYields[%s] = %d, %d records with MX:%s were written' % (name, ys.get(name, 0), cnt, name)))
+            for j, cnt in bymx.items():
+                name = r['order'][j] if j < len(r.get('order', [])) else None
+                if j < ns and ys.get(name, 0) != cnt:
+                    v.append(('yields', 'strategyYields[%s] = %d, %d demultiplexed R1 records of that strategy were written' % (name, ys.get(name, 0), cnt)))
         lg = r.get('log')
         if lg is not None and (lg['processed'] != r['result']['processed'] or
                                {k: x for k, x in lg['yields'].items() if x} != {k: x for k, x in ys.items() if x}):
@@ -780,10 +1418,9 @@ class Prop(fw.PropBase):
         import time
         self.t_search = time.time()
         best = {}
-        for c, r in zip(self.cases, self.res):
-            if 'error' in r:
-                continue
-            for key, text in self.spec_violations(c, r):
+        viol, _dis, _outs = self.evaluate_spec(self.cases, self.res)
+        for c, r, sv in zip(self.cases, self.res, viol):
+            for key, text in sv:
                 size = sum(len(f['lines']) for f in c['files']) * 10 + len(c.get('use', [])) + (0 if c.get('maxp') is None else 1)
                 if key not in best or size < best[key][0]:
                     best[key] = (size, c, r, text)
@@ -793,6 +1430,7 @@ class Prop(fw.PropBase):
                 'key': key, 'what': text2,
                 'input': {k: v for k, v in c2.items() if k != 'meta'},
                 'impl': {'result': r2.get('result'), 'out_files': r2.get('out_files'), 'log': r2.get('log'), 'records_read': len(r2['pairs'])},
+                'decided_by': self.spec_by,
                 'expected': 'every consumed pair exactly once per strategy (demultiplexed XOR rejected with reason, original bases and '
                             'qualities), R1/R2 in step and in input order, counters = records written'})
 
@@ -836,10 +1474,11 @@ class Prop(fw.PropBase):
                 break
             rs = self.run_impl_cases(cands)
             hits = []
-            for d, r in zip(cands, rs):
+            vs, _d, _o = self.evaluate_spec(cands, rs)
+            for d, r, sv in zip(cands, rs, vs):
                 if 'error' in r:
                     continue
-                hit = [t for k, t in self.spec_violations(d, r) if k == key]
+                hit = [t for k, t in sv if k == key]
                 if hit:
                     hits.append((sum(len(f['lines']) for f in d['files']) * 10 + len(d['use']) + (d.get('maxp') is not None), d, r, hit[0]))
             if not hits:
